@@ -148,7 +148,9 @@ func c10Doc(t *rapid.T) ([]byte, string) {
 	case "binary":
 		return rapid.SliceOfN(rapid.Byte(), 0, 200).Draw(t, "bytes"), kind
 	case "shape":
-		return []byte(rapid.SampledFrom([]string{"", "\n", "null", "~", "[]", "{}", "42", "just text", "a: b", "- 1\n- 2", "- [a, b]", "- {command: [x]}", "- command: {a: b}", "---\n- command: a\n---\n- command: b\n", "- command: a\n  pipeline: maybe", "- command: a\n  keywords: x", "&a [*a]", "- &a {command: x}\n- *a", "%YAML 1.1\n---\n[]", "no such file or directory", "permission denied", "- pipeline: yes\n  command: y"}).Draw(t, "shape")), kind
+		return []byte(rapid.SampledFrom([]string{"", "\n", "null", "~", "[]", "{}", "42", "just text", "a: b", "- 1\n- 2", "- [a, b]", "- {command: [x]}", "- command: {a: b}", "---\n- command: a\n---\n- command: b\n", "- command: a\n  pipeline: maybe", "- command: a\n  keywords: x", "&a [*a]", "- &a {command: x}\n- *a", "%YAML 1.1\n---\n[]", "no such file or directory", "permission denied", "- pipeline: yes\n  command: y",
+			"- {\"no such file or directory\": 1, \"no such file or directory\": 2}", "- command: a\n  \"permission denied\": 1\n  \"permission denied\": 2\n",
+			"\"no such file or directory\": 1\n\"no such file or directory\": 2\n", "- command: x\n  command: \"permission denied\"\n"}).Draw(t, "shape")), kind
 	default:
 		return []byte(rapid.StringN(0, 12, -1).Draw(t, "tiny")), kind
 	}
